@@ -286,8 +286,79 @@ int main(int argc, char** argv) {
   d4.chunk = 1 << 16;
   d4.rule = quick ? "single-precision values widened to double: all floats whose low 12 mantissa bits are one of 0,1,2,0x7ff,0x800,0x801,0xffe,0xfff" : "every single-precision value (all 2^32 bit patterns; NaN/inf skipped) widened to double";
 
+  // D5 / D6: SHORT decimals.  The digit generator works on the 16/17-digit decimal significand in 4- and 8-digit groups
+  // and trims trailing zeros group-wise; random or boundary significands always produce 16-17 digits, so the digit
+  // strings themselves are enumerated here: D5 = four 4-digit groups from a set of 10 (every zero / non-zero group
+  // pattern) with 0..3 trailing digits cut off (every alignment of the groups to the right end); D6 = at most two
+  // non-zero digits at every pair of the 17 positions.  Each is placed at 37 decimal exponents covering both output formats.
+  static const char* G5[10] = {"0000", "0001", "0010", "0100", "1000", "1234", "5678", "9999", "9990", "0999"};
+  static const int K5[] = {-340, -324, -320, -310, -200, -40, -30, -25, -22, -20, -18, -17, -16, -15, -14, -13, -12, -11, -10, -9, -8, -7, -6, -5, -4, -3, -2, -1, 0, 1, 2, 3, 4, 5, 8, 20, 200, 290};
+  const unsigned NK5 = sizeof K5 / sizeof K5[0];
+  vr::Family d5, d6;
+  d5.name = "D5_short_decimal_groups";
+  d5.count = (uint64_t)10000 * 4 * NK5;
+  d5.group = "D5";
+  d5.chunk = 2048;
+  d5.rule = "doubles nearest g1g2g3g4 / 10^t x 10^k: every sequence of four 4-digit groups from {0000,0001,0010,0100,1000,1234,5678,9999,9990,0999}, t in 0..3 trailing digits removed, 38 decimal exponents k (both output formats, subnormal to 1e300); short shortest-decimals with zero groups inside";
+  d6.name = "D6_two_nonzero_digits";
+  d6.count = (uint64_t)17 * 17 * 81 * NK5;
+  d6.group = "D6";
+  d6.chunk = 2048;
+  d6.rule = "doubles nearest the 17-digit strings with non-zero digits a at position i and b at position j (all i<=j, a,b in 1..9; i==j: one digit) x 38 decimal exponents";
+  auto short_decimal = [&](const std::string& digits, int k, vr::Ctx& ctx) {
+    std::string t = digits;
+    size_t nz = t.find_first_not_of('0');
+    if (nz == std::string::npos) {
+      ctx.skip();
+      return;
+    }
+    t = t.substr(nz) + "e" + std::to_string(k);
+    double x = std::strtod(t.c_str(), nullptr);
+    uint64_t bits = bits_of(x);
+    if ((bits >> 52) >= 0x7ff || (bits << 1) == 0) {
+      ctx.skip();
+      return;
+    }
+    if (ctx.want_sample) ctx.sample(t);
+    ctx.nontriv();
+    check_double(bits, ctx, (bits & 7) == 0);
+  };
+
   vr::CheckFn check = [&](const vr::Family& f, uint64_t idx, vr::Ctx& ctx) {
     const std::string& nm = f.name;
+    if (nm[1] == '5') {
+      int k = K5[idx % NK5];
+      idx /= NK5;
+      unsigned t = (unsigned)(idx % 4);
+      idx /= 4;
+      std::string dg;
+      for (int g = 0; g < 4; g++) {
+        dg = std::string(G5[idx % 10]) + dg;
+        idx /= 10;
+      }
+      dg.resize(dg.size() - t);
+      short_decimal(dg, k, ctx);
+      return;
+    }
+    if (nm[1] == '6') {
+      int k = K5[idx % NK5];
+      idx /= NK5;
+      unsigned b = (unsigned)(idx % 9) + 1;
+      idx /= 9;
+      unsigned a = (unsigned)(idx % 9) + 1;
+      idx /= 9;
+      unsigned j = (unsigned)(idx % 17);
+      unsigned i = (unsigned)(idx / 17);
+      if (i > j || (i == j && a != b)) {
+        ctx.skip();
+        return;
+      }
+      std::string dg(17, '0');
+      dg[i] = (char)('0' + a);
+      dg[j] = (char)('0' + b);
+      short_decimal(dg, k, ctx);
+      return;
+    }
     if (nm[1] == '1') {
       uint64_t sign = idx & 1;
       idx >>= 1;
@@ -361,7 +432,7 @@ int main(int argc, char** argv) {
     }
   };
 
-  std::vector<vr::Family> fams = {d1, d2, d3, d3b, d4};
+  std::vector<vr::Family> fams = {d1, d2, d3, d3b, d4, d5, d6};
   if (args.replay) return R.replay_one(fams, check);
   const std::string only = args.get("only");
   for (auto& f : fams)
